@@ -116,6 +116,35 @@ impl Gen {
         let ci = self.rng.below(self.cas.len() as u64) as usize;
         let ca = self.cas[ci].clone();
         let roll = self.profile.contains("roll");
+        // profile `maint`: about a third of the ops are maintenance runs and removals
+        if self.profile.contains("maint") && self.rng.chance(35, 100) {
+            return match self.rng.below(10) {
+                0 => "republish force".into(),
+                1 => "republish ifneeded".into(),
+                2 => "task republish".into(),
+                3 => "task renew".into(),
+                4 => "renew".into(),
+                5 => format!("reposync {}", ca.name),
+                6 | 7 => {
+                    if let Some(r) = ca.roas.first().cloned() {
+                        self.cas[ci].roas.retain(|x| *x != r);
+                        format!("roa {} -{}", ca.name, r.split('#').next().unwrap())
+                    } else { "task republish".into() }
+                }
+                8 => {
+                    if let Some(c) = ca.aspas.first().copied() {
+                        self.cas[ci].aspas.retain(|x| *x != c);
+                        format!("aspa {} -{c}", ca.name)
+                    } else { "task renew".into() }
+                }
+                _ => {
+                    if let Some(c) = ca.bgpsec.first().copied() {
+                        self.cas[ci].bgpsec.retain(|x| *x != c);
+                        format!("bgpsec {} -{c}", ca.name)
+                    } else { "republish ifneeded".into() }
+                }
+            };
+        }
         match self.rng.below(100) {
             0..=24 => "pump".into(),
             25..=44 => {
